@@ -6,7 +6,7 @@
    Result names: `RGen i` is the string "result<i>" (decimal, as `format!("result{}", idx)` prints it),
    `RStr s` any other string (interned; 0 = the empty string).  The harness maps a written name of the
    form result<canonical decimal> to RGen, so equality of rname is equality of strings. *)
-From Coq Require Import NArith ZArith List Bool.
+From Coq Require Import NArith ZArith QArith List Bool.
 Import ListNotations.
 Local Open Scope N_scope.
 
@@ -169,3 +169,11 @@ Definition kernel_ok (k : kernel) : bool :=
 (* convert_color_matrix_kind, `_` arm: a matrix is kept only with exactly 20 values *)
 Definition color_matrix_len (values : option Z) : option Z :=
   match values with Some n => if n =? 20 then Some n else None | None => None end.
+
+(* convert_specular_lighting: `if !(1.0..=128.0).contains(&e) { return None }` then `f32_bound(1.0, e, 128.0)`;
+   `e` is the specularExponent attribute (1 when absent); None = the primitive is replaced by the dummy flood *)
+Local Open Scope Q_scope.
+Definition q_bound (lo x hi : Q) : Q := if Qle_bool x lo then lo else if Qle_bool hi x then hi else x.
+Definition specular_exponent (attr : option Q) : option Q :=
+  let e := match attr with Some v => v | None => 1 end in
+  if Qle_bool 1 e && Qle_bool e 128 then Some (q_bound 1 e 128) else None.
